@@ -42,6 +42,8 @@ OWNERS = {
     "cons.coefs": {
         "Model._populate_solver": "writes the stoichiometric coefficients of (re)created reactions",
         "Reaction.add_metabolites": "mirrors the edited stoichiometry",
+        "Model._restore_constraint_terms": "undo entry of remove_reactions (F41): gives constraints that are no mass balances (filtered by name where the terms are recorded) the terms back that the removal of the reaction's variables "
+                                           "took from them; the mass balances themselves are re-populated by _populate_solver. What it leaves behind is decided by evaluation (C01.replay / C03.replay with a user constraint)",
     },
     "var.name": {"Reaction._set_id_with_model": "renames the variable pair with the reaction"},
     "cons.name": {"Metabolite._set_id_with_model": "renames the row with the metabolite"},
@@ -406,6 +408,10 @@ def check_sign(ctx) -> None:
                                     ctx.ok("C01.sign", fn.parent, site, "coefficients {forward: c, reverse: -c} (through a local helper)")
                                 else:
                                     ctx.bad("C01.sign", fn.parent, site, "the reverse variable's coefficient is not the negation of the forward variable's: the net flux v = forward - reverse gets the wrong weight")
+                    elif isinstance(v1, ast.Name) and isinstance(v2, ast.Name) and v1.id != v2.id and _independent_values(fn, v1.id, v2.id):
+                        # two values that were recorded separately (loop / tuple targets of one record, neither defined
+                        # from the other): a restore of what a constraint held, not a weight of the net flux
+                        ctx.ok("C01.sign", fn, n, "two separately recorded coefficients are written back (no weight of a net flux)", nontrivial=False)
                     else:
                         ctx.bad("C01.sign", fn, n, "the reverse variable's coefficient is not the negation of the forward variable's: the net flux v = forward - reverse gets the wrong weight")
             elif isinstance(n, ast.BinOp) and isinstance(n.op, (ast.Add, ast.Sub)):
@@ -431,6 +437,31 @@ def check_sign(ctx) -> None:
                         ctx.ok("C01.sign", fn, n, "objective coefficient recognised when forward == -reverse")
                     else:
                         ctx.bad("C01.sign", fn, n, "forward and reverse objective coefficients are compared without the sign flip")
+
+
+def _independent_values(fn: FuncInfo, a: str, b: str) -> bool:
+    """Both names are bound only as targets of one tuple unpacking (a `for` target or an assignment from one record)
+    and nowhere defined from each other."""
+    bound = {a: 0, b: 0}
+    for n in walk_local(fn.node):
+        tgt = n.target if isinstance(n, (ast.For, ast.comprehension)) else None
+        if tgt is not None and isinstance(tgt, ast.Tuple):
+            names = {x.id for x in tgt.elts if isinstance(x, ast.Name)}
+            if a in names and b in names:
+                bound[a] += 1
+                bound[b] += 1
+                continue
+        if isinstance(n, ast.Assign):
+            for t in n.targets:
+                names = {x.id for x in ast.walk(t) if isinstance(x, ast.Name)}
+                if isinstance(t, ast.Tuple) and a in names and b in names and not isinstance(n.value, ast.Tuple):
+                    bound[a] += 1
+                    bound[b] += 1
+                elif a in names or b in names:
+                    return False  # defined by an expression of its own: the relation has to be visible
+        elif isinstance(n, (ast.AugAssign, ast.AnnAssign)) and isinstance(n.target, ast.Name) and n.target.id in (a, b):
+            return False
+    return bound[a] == 1 and bound[b] == 1
 
 
 def _param_pairs(fn: FuncInfo, p1: str, p2: str):
